@@ -152,7 +152,7 @@ func run(tier string) int {
 					}
 					for _, k := range ks {
 						for _, mode := range []string{"kill", "stall"} {
-							jobs = append(jobs, job{crashmc.Target{Script: sn, Engine: eng, Cmd: c, Point: p, K: k, Mode: mode}, script, ref})
+							jobs = append(jobs, job{crashmc.Target{Script: sn, Engine: eng, Cmd: c, Point: p, K: k, Mode: mode, Continue: sn == "counter" || !quick}, script, ref})
 						}
 					}
 				}
@@ -171,7 +171,7 @@ func run(tier string) int {
 							ks = append(ks, restart.Hits[p])
 						}
 						for _, k := range ks {
-							jobs = append(jobs, job{crashmc.Target{Script: sn, Engine: eng, Cmd: -1, Prefix: pre, Point: p, K: k, Mode: "kill", Settle: true}, script, ref})
+							jobs = append(jobs, job{crashmc.Target{Script: sn, Engine: eng, Cmd: -1, Prefix: pre, Point: p, K: k, Mode: "kill", Settle: true, Continue: true}, script, ref})
 							if !quick {
 								jobs = append(jobs, job{crashmc.Target{Script: sn, Engine: eng, Cmd: -1, Prefix: pre, Point: p, K: k, Mode: "kill", Graceful: true}, script, ref})
 							}
